@@ -47,8 +47,12 @@ class C08(scen.WorldProp):
                         events.append([t, "msg", {"m": "assign", "bell": rng.randint(1, N), "user": rng.choice([11, 12, 5 if named else 12])}])
                     elif r < 0.7:
                         events.append([t, "msg", {"m": "assign", "bell": rng.randint(1, N), "user": 0}])
-                    elif r < 0.85:
+                    elif r < 0.8:
                         events.append([t, "msg", {"m": "user_left", "id": rng.choice([11, 12])}])
+                    elif r < 0.88:
+                        # another user list (a reconnection): it adds to what is known, whoever it omits
+                        pool = [{"id": 11, "name": "Alice"}, {"id": 12, "name": "Bob"}, {"id": 13, "name": "Cara"}]
+                        events.append([t, "msg", {"m": "user_list", "users": rng.sample(pool, rng.randint(0, 2))}])
                     else:
                         events.append([t, "msg", {"m": "user_entered", "id": 12, "name": rng.choice(["Bob", "Wheatley"])}])
                     ch += 1
